@@ -65,6 +65,39 @@ def _val(node):
     return rat_eval(tree, env)
 
 
+def _is_empty_test(prog, t):
+    """<mask>.sum() == 0   /   0 == <mask>.sum()   (true = nothing selected)"""
+    if isinstance(t, ast.Compare) and len(t.ops) == 1 and \
+            isinstance(t.ops[0], ast.Eq):
+        for a, b in ((t.left, t.comparators[0]), (t.comparators[0], t.left)):
+            if isinstance(b, ast.Constant) and b.value == 0 and \
+                    isinstance(a, ast.Call) and \
+                    isinstance(a.func, ast.Attribute) and \
+                    a.func.attr in ('sum', 'count_nonzero'):
+                return True
+    return False
+
+
+def _is_nonempty_test(prog, t):
+    """<mask>.any()  /  <mask>.sum() > 0  (true = something selected)"""
+    if isinstance(t, ast.Call) and isinstance(t.func, ast.Attribute) and \
+            t.func.attr == 'any':
+        return True
+    if isinstance(t, ast.Compare) and len(t.ops) == 1:
+        l, r, op = t.left, t.comparators[0], t.ops[0]
+        if isinstance(op, (ast.Gt, ast.NotEq)) and \
+                isinstance(r, ast.Constant) and r.value == 0 and \
+                isinstance(l, ast.Call) and \
+                isinstance(l.func, ast.Attribute) and l.func.attr == 'sum':
+            return True
+        if isinstance(op, (ast.Lt, ast.NotEq)) and \
+                isinstance(l, ast.Constant) and l.value == 0 and \
+                isinstance(r, ast.Call) and \
+                isinstance(r.func, ast.Attribute) and r.func.attr == 'sum':
+            return True
+    return False
+
+
 def check(an, rep, tier):
     prog = an.prog
     rep.explanation = decided_split(
@@ -164,7 +197,7 @@ def check(an, rep, tier):
           'anova_func.ANOVA_func.cores', 'anova_func.ANOVA_func.coeffs',
           'anova.ANOVA.f1_arr', 'anova.ANOVA.f2_arr'}
     runs = sweep(an, rep, ['anova.anova', 'anova_func.anova_func'], ds,
-                 wheres=wh)
+                 rules=S_RULES + ['K-empty'], wheres=wh)
     for r in runs:
         for j, rv in enumerate(r.returns):
             st, detail = tt_wellformed(rv, None)
@@ -259,6 +292,56 @@ def check(an, rep, tier):
             'ok' if ok else 'violation',
             '' if ok else 'the first-order term is no longer "conditional '
             'mean minus the constant"')
+    # --- T-pair-term: the stored pair term is 0 when the pair was never
+    # observed and  mean - f0 - f1 - f1  otherwise (path-wise symbolic value)
+    from .. import rules_sym
+    fb2 = prog.func('anova.ANOVA.build_2')
+    stores = [n for n in ast.walk(fb2.node) if isinstance(n, ast.Assign) and
+              isinstance(n.targets[0], ast.Subscript) and
+              isinstance(n.targets[0].slice, ast.Tuple) and
+              isinstance(n.value, ast.Name)]
+    for st_ in stores:
+        vals = rules_sym.values_at(fb2.node, st_, st_.value.id)
+        for gs_, val in vals:
+            gs_ = paths.guard_atoms(gs_)        # strips not / splits and-or
+            empties = [pol for t, pol in gs_ if _is_empty_test(prog, t)]
+            nonempties = [not pol for t, pol in gs_
+                          if _is_nonempty_test(prog, t)]
+            flags = empties + nonempties
+            if not flags or val is None:
+                continue        # not a store of a pair term
+            empty = flags[-1]
+            if empty:
+                ok = val.eq(Rat(0))
+                rep.add('T-pair-term', 'anova.ANOVA.build_2', 'never observed '
+                        'index pair -> pair term 0',
+                        'ok' if ok else 'violation',
+                        '' if ok else 'for an index pair that never occurs in '
+                        'the data the stored pair term is %r, not 0'
+                        % (val.reduced(),), line=st_.lineno,
+                        file=fb2.module.path)
+            else:
+                num = val.reduced()
+                coeffs = {}
+                lin = num.d.as_int() == 1 if hasattr(num.d, 'as_int') else True
+                for mono, c in num.n.t.items():
+                    if len(mono) != 1 or mono[0][1] != 1:
+                        lin = False
+                        continue
+                    coeffs[mono[0][0]] = c
+                means = [a for a, c in coeffs.items() if 'mean(' in str(a)
+                         and c == 1]
+                f0s = [a for a, c in coeffs.items()
+                       if str(a).endswith('.f0') and c == -1]
+                f1s = [a for a, c in coeffs.items() if '.f1[' in str(a)
+                       and c == -1]
+                ok = lin and len(means) == 1 and len(f0s) == 1 and \
+                    len(f1s) == 2 and len(coeffs) == 4
+                rep.add('T-pair-term', 'anova.ANOVA.build_2', 'observed index '
+                        'pair -> conditional mean - f0 - f1(x1) - f1(x2)',
+                        'ok' if ok else 'violation',
+                        '' if ok else 'the stored pair term is %r'
+                        % (num,), line=st_.lineno, file=fb2.module.path)
     fn = prog.func('anova.ANOVA.build_0')
     ok = any(isinstance(n, ast.Assign) and
              isinstance(n.targets[0], ast.Attribute) and
@@ -308,6 +391,7 @@ def check(an, rep, tier):
     _RP.check_param_forwarding(prog, rep, callers=_callers)
     rep.floor('T-pattern', 3, 'core patterns')
     rep.floor('T-identity', 1, 'chaining cores')
+    rep.floor('T-pair-term', 2, 'pair terms')
     rep.floor('S-ret', 4, 'results')
     rep.floor('P-order', 3, 'build order')
     rep.floor('A-self', 5, 'object-state writes')
